@@ -31,10 +31,10 @@ template <unsigned N, class Aut> static bool decodeFree(const Aut& aut, SymAut<N
   for (unsigned s = 0; s < N; ++s) out.fin[s] = false;
   bool ok = true;
   for (const typename Aut::Transition& t : aut) {
-    bool hp[N], hc[2][N]; for (unsigned k = 0; k < 2; ++k) for (unsigned s = 0; s < N; ++s) hc[k][s] = false;
+    bool hp[N], hc[3][N]; for (unsigned k = 0; k < 3; ++k) for (unsigned s = 0; s < N; ++s) hc[k][s] = false;
     sl.locate(t.GetParent(), hp);
     const unsigned long n = t.GetChildren().size();
-    for (unsigned k = 0; k < 2; ++k) if (k < n) sl.locate(t.GetChildren()[k], hc[k]);
+    for (unsigned k = 0; k < 3; ++k) if (k < n) sl.locate(t.GetChildren()[k], hc[k]);
     bool matched = false;
     for (unsigned i = 0; i < out.nrules; ++i) { Rule r = Univ<N>::rule(i);
       bool m = (t.GetSymbol() == (symName ? symName[r.sym] : r.sym)) & (n == r.rank) & hp[r.parent];
